@@ -104,6 +104,22 @@ def replay_file(doc):
         r = check_resume(doc["scenario"], doc["point"], doc["mode"], _trajectory(ref))
         hit = r is not None and r[0] == doc["clause"]
         return hit, (f"{r[0]}: {r[1]}" if hit else "clause holds on this tree")
+    if doc.get("kind") == "pair_monitor":
+        import warnings
+        scn = doc["scenario"]
+        with warnings.catch_warnings():
+            warnings.simplefilter("ignore")
+            base = scen.build(scn); base.run()
+            A = _outputs(base)
+            hits = []
+            for variant, kw in pair_variants(scn, random.Random(0)) + [(doc["variant"], {})]:
+                if variant != doc["variant"] and not variant.startswith(doc["variant"].split(":")[0]):
+                    continue
+                sim = scen.build(scn, **kw); sim.run()
+                d = _diff_outputs(A, _outputs(sim, shift=kw.get("shift", 0)))
+                if d:
+                    hits.append(f"{variant}: {d}")
+        return bool(hits), "\n".join(hits[:5]) or "paired runs agree on this tree"
     if doc.get("kind") == "algo_monitor":
         from . import algomon
         return algomon.replay(doc)
@@ -377,3 +393,123 @@ def _stoch_run(seed):
     traj = (T, sim.charging_rates[:, :T].tolist(), sim.pilot_signals[:, :T].tolist(), sorted((k, e._energy_delivered) for k, e in sim.ev_history.items()),
             net.swaps, net.never_charged, net.early_unplug, sorted(occ_log.items()))
     return dict(bad=bad, traj=traj, shape=(ns, len(sess), early, period, type(sch).__name__, seed))
+
+
+# ============================================================================ C10: determinism, order independence, time shift
+def _outputs(sim, shift=0):
+    ids = list(sim.network.station_ids)
+    T = sim._iteration
+    return dict(
+        T=T - shift,
+        pilots={s: [float(x) for x in sim.pilot_signals[i, shift:T]] for i, s in enumerate(ids)},
+        rates={s: [float(x) for x in sim.charging_rates[i, shift:T]] for i, s in enumerate(ids)},
+        lead={s: [float(x) for x in sim.pilot_signals[i, :shift]] + [float(x) for x in sim.charging_rates[i, :shift]] for i, s in enumerate(ids)},
+        energies={k: float(ev._energy_delivered) for k, ev in sim.ev_history.items()},
+    )
+
+
+def _diff_outputs(a, b):
+    for k in ("T", "energies", "pilots", "rates"):
+        if a[k] != b[k]:
+            if isinstance(a[k], dict):
+                for kk in a[k]:
+                    if a[k].get(kk) != b[k].get(kk):
+                        return f"{k}[{kk}]: {a[k].get(kk)} vs {b[k].get(kk)}"
+            return f"{k}: {a[k]} vs {b[k]}"
+    return None
+
+
+def pair_monitor(task):
+    import itertools
+    import subprocess
+    import sys
+    import warnings
+    prop, tier, seed0 = task["prop"], task.get("tier", "quick"), int(task.get("seed", 0))
+    n = 60 if tier == "quick" else 1500
+    t0 = time.time()
+    evals = 0
+    viol, distinct = [], set()
+
+    def bad(tag, detail, scn, variant):
+        if len(viol) < 5:
+            rp = write_replay(prop, f"pair_{tag}_{scn['seed']}.json", dict(kind="pair_monitor", property=prop, clause=tag, detail=detail, scenario=scn, variant=variant))
+            viol.append(dict(what=f"{tag} ({variant}): {detail}"[:300], replay=rp))
+
+    fresh_jobs = []
+    for k in range(n):
+        r = random.Random(seed0 * 100003 + k)
+        kinds = [dict(kind="scripted", seed=k), dict(kind="uncontrolled"), dict(kind="sorted", sort=scen.SORTS[k % 5]), dict(kind="rr", sort=scen.SORTS[k % 5])]
+        sc_kind = kinds[k % len(kinds)]
+        finite = sc_kind["kind"] in ("sorted", "rr")
+        scn = scen.gen(seed0 * 100003 + k, scheduler=sc_kind, finite_only=finite, distinct_keys=True, allow_deadband=not finite)
+        try:
+            with warnings.catch_warnings():
+                warnings.simplefilter("ignore")
+                base = scen.build(scn); base.run()
+                A = _outputs(base)
+                for variant, kw in pair_variants(scn, r):
+                    evals += 1
+                    distinct.add((scn["seed"], variant))
+                    sim = scen.build(scn, **kw); sim.run()
+                    B = _outputs(sim, shift=kw.get("shift", 0))
+                    d = _diff_outputs(A, B)
+                    tag = {"same": "equal_inputs_give_identical_outputs", "stations": "independent_of_station_registration_order",
+                           "constraints": "independent_of_constraint_order", "sessions": "independent_of_session_listing_order"}.get(variant.split(":")[0],
+                                                                                                                              "shift_of_events_shifts_outputs")
+                    if d:
+                        bad(tag, d, scn, variant)
+                    if kw.get("shift") and any(any(x != 0 for x in v) for v in B["lead"].values()):
+                        bad("shift_of_events_shifts_outputs", f"non-zero outputs before the shifted origin: {B['lead']}", scn, variant)
+        except Exception as e:
+            if harness_fault(e):
+                return dict(label=task.get("label", "pair_monitor"), error=f"scenario {k}: {type(e).__name__}: {e}")
+            bad("paired_runs_complete", f"{type(e).__name__}: {e}", scn, "?")
+            continue
+        if len(fresh_jobs) < (4 if tier == "quick" else 24) and sc_kind["kind"] in ("sorted", "rr"):
+            fresh_jobs.append((scn, A))
+    # determinism across processes: the same scenario in a fresh interpreter (no state left over from other simulations)
+    from pyvc.source import REPO
+    for scn, A in fresh_jobs:
+        evals += 1
+        code = ("import sys, json, warnings; sys.path.insert(0, %r); sys.path.insert(0, %r); warnings.simplefilter('ignore');"
+                "from rt import scen, drivers; scn = json.loads(sys.stdin.read()); s = scen.build(scn); s.run(); print('OUT' + json.dumps(drivers._outputs(s)))") % (VERIF, REPO)
+        p = subprocess.run([sys.executable, "-c", code], input=json.dumps(scn), capture_output=True, text=True, timeout=300)
+        line = [l for l in p.stdout.splitlines() if l.startswith("OUT")]
+        if not line:
+            return dict(label=task.get("label", "pair_monitor"), error=f"fresh interpreter failed: {p.stderr[-300:]}")
+        B = json.loads(line[0][3:])
+        d = _diff_outputs(json.loads(json.dumps(A)), B)
+        if d:
+            bad("equal_inputs_give_identical_outputs", f"in-process run (after other simulations) differs from a fresh interpreter: {d}", scn, "fresh-process")
+    return dict(label=task.get("label", "pair_monitor"),
+                bound=f"{n} seeded scenarios with distinct priority keys (scripted / uncontrolled / finite-rate greedy / finite-rate round robin), each re-run with the same inputs, "
+                      f"up to 3 station permutations, 2 constraint permutations, 2 session permutations and shifts k in {{1, 3}} (k = 6 when the pre-event recompute grid matters); "
+                      f"{len(fresh_jobs)} scenarios re-run in a fresh interpreter",
+                evaluations=evals, distinct_nontrivial=len(distinct), violations=viol, wall_s=round(time.time() - t0, 2))
+
+
+def pair_variants(scn, r):
+    out = [("same", {})]
+    ns, nc, nn = len(scn["stations"]), len(scn["constraints"]), len(scn["sessions"])
+    for _ in range(3):
+        if ns > 1:
+            p = list(range(ns)); r.shuffle(p)
+            out.append((f"stations:{p}", dict(station_order=p)))
+    for _ in range(2):
+        if nc > 1:
+            p = list(range(nc)); r.shuffle(p)
+            out.append((f"constraints:{p}", dict(constraint_order=p)))
+        if nn > 1:
+            p = list(range(nn)); r.shuffle(p)
+            out.append((f"sessions:{p}", dict(session_order=p)))
+    mr = scn["max_recompute"]
+    first = min(s["arrival"] for s in scn["sessions"])
+    if scn["scheduler"]["kind"] != "scripted" or mr is None or first == 0:
+        shifts = [1, 3]
+    else:
+        shifts = [6]
+    if scn.get("recompute_events") and scn["scheduler"]["kind"] == "scripted" and mr is not None and min(scn["recompute_events"]) < first:
+        shifts = [6]
+    for k in shifts:
+        out.append((f"shift:{k}", dict(shift=k)))
+    return out
